@@ -2196,6 +2196,11 @@ class LLParser:
                     continue
 
                 assert isinstance(productions, list)
+                for prod in productions:
+                    for prod_symbol in (prod if isinstance(prod, (tuple, list)) else ()):
+                        assert not isinstance(prod_symbol, str) or '__' not in prod_symbol, (
+                            f"Invalid symbol '{prod_symbol}' in production of '{symbol}'. "
+                            f"Symbol names containing '__' are reserved")
                 yield symbol, productions
 
         for symbol, productions in _gen_prods_data():
